@@ -18,6 +18,7 @@ mod selfcheck;
 mod seams;
 mod types;
 mod world;
+mod x509sim;
 
 use std::collections::BTreeMap;
 
